@@ -81,7 +81,12 @@ def cases(tier, seed):
                 tracked[name] = sorted(rng.sample(range(d), rng.randint(1, d)))
         if not tracked:
             tracked['a'] = list(range(d))
-        cs.append({'gen': 'expr', 'N': N, 'R': {k: gens.rank_profile(rng, d, 'rand', 3) for k in 'abcA'}, 'expr': gen_S(rng, depth, d), 'tracked': tracked,
+        expr = gen_S(rng, depth, d)
+        if i % 40 == 7:
+            # polynomial scalars of an argument that vanishes EXACTLY (a - a, b - (+b), (a+b) - (a+b); `0*a` is left out: the library documents that it returns constant zeros): the derivative is exactly zero there, not NaN
+            inner = [['sub', ['leaf', 'a'], ['leaf', 'a']], ['sub', ['leaf', 'b'], ['pos', ['leaf', 'b']]], ['sub', ['add', ['leaf', 'a'], ['leaf', 'b']], ['add', ['leaf', 'a'], ['leaf', 'b']]]][(i // 40) % 3]
+            expr = [['norm2', inner], ['dot', inner, ['leaf', 'c']], ['splus', ['norm2', inner], ['sum', ['leaf', 'a']]], ['sum', ['mul', inner, inner]]][(i // 120) % 4]
+        cs.append({'gen': 'expr', 'N': N, 'R': {k: gens.rank_profile(rng, d, 'rand', 3) for k in 'abcA'}, 'expr': expr, 'tracked': tracked,
                    'api': ['grad.grad', 'grad.grad_list', 'autograd.grad'][i % 3]})
     return cs
 
@@ -481,7 +486,7 @@ def run_case(case, ctx):
     # value agreement first (a wrong value makes the gradient comparison meaningless); sqrt-type nodes amplify roundoff near zero
     # (the norm of an exactly cancelling tensor is sqrt(roundoff)), hence the additional sqrt term
     vfloor = 1e4 * U * float(S_abs.detach()) + (1e-7 * float(S_abs.detach()) if _has_sqrt(case['expr']) else 0.0)
-    if abs(float(val.detach()) - float(ref.detach())) > 1e-6 * abs(float(ref.detach())) + vfloor:
+    if not abs(float(val.detach()) - float(ref.detach())) <= 1e-6 * abs(float(ref.detach())) + vfloor:
         ctx.viol('expr/%s/clause=value' % _top(case['expr']), '%s: TT value %r, dense value %r' % (what, float(val.detach()), float(ref.detach())))
         return
     names = [k for k in 'abcA' if k in tracked]
@@ -582,7 +587,7 @@ def run_case(case, ctx):
         ctx.metric('grad_rel_err', err / sc if influences else 0.0)
         if sq and not dn.fro(gref) > 1e-3 * (gfloor[(nme, i)] / (1e4 * U) if gfloor[(nme, i)] else 0.0):
             continue        # gradient through a sqrt whose argument (nearly) cancels: not differentiable in floating point
-        if err > RTOL * sc + gfloor[(nme, i)]:
+        if not err <= RTOL * sc + gfloor[(nme, i)]:        # written so that a NaN derivative fails the comparison
             ctx.viol(key + '/clause=grad-value', '%s: core %d of %s: ||g-gref||=%.3e, ||gref||=%.3e' % (what, i, nme, err, sc))
         if influences:
             nz = True
